@@ -464,17 +464,63 @@ def as_bool(ch, vals):
 
 
 def loop_latch_value(s, loop, root):
-    """value of `root` when control returns to the loop header (merged over back edges)"""
+    """value of `root` when control returns to the loop header.  With several back edges (`continue` in the body) the
+    values are merged into a decision tree over the switches of the loop body; paths that leave the loop do not count."""
+    from ..expr import mk_ite
     cfg = s.cfg
     h = loop['header']
-    vals = []
+    back = {}
     for (a, b) in cfg.back_edges():
         if b == h and a in s.exit:
-            vals.append(s.exit[a].get(root))
-    vals = [v for v in vals if v is not None]
-    if len(vals) == 1:
-        return vals[0]
-    return None
+            back[a] = s.exit[a].get(root)
+    if any(v is None for v in back.values()) or not back:
+        return None
+    if len(back) == 1:
+        return list(back.values())[0]
+    blocks = set(loop['blocks']) | {h}
+    memo = {}
+    onstack = set()
+
+    def tree(b):
+        if b in memo:
+            return memo[b]
+        if b in onstack:
+            return None          # an inner cycle: not a decision tree
+        onstack.add(b)
+        r = tree1(b)
+        onstack.discard(b)
+        memo[b] = r
+        return r
+
+    def edge(frm, to):
+        if to == h:
+            return back.get(frm)
+        if to not in blocks:
+            return ('never',)
+        return tree(to)
+
+    def tree1(b):
+        t = s.body.blocks[b]['term']
+        succs = s.body.successors(b)
+        if not succs:
+            return ('never',)
+        if t['k'] == 'switch':
+            cond = s.switches.get(b)
+            if cond is None:
+                return None
+            cases = []
+            for v, tb in t['targets']:
+                e = edge(b, tb)
+                if e is None:
+                    return None
+                cases.append((v, e))
+            e = edge(b, t['otherwise'])
+            if e is None:
+                return None
+            cases.append(('otherwise', e))
+            return mk_ite(cond, tuple(cases))
+        return edge(b, succs[0])
+    return tree(h)
 
 
 def count_after(e, callee_suffix):
